@@ -393,6 +393,7 @@ impl Cell {
         match self.value() {
             Cell::Int(i) if *i < 0 =>
                 Err(cell_type_error(xeh_xstr!("positive integer"), self.clone())),
+            Cell::Int(i) if *i > usize::MAX as Xint => Err(Xerr::IntegerOverflow),
             Cell::Int(i) => Ok(*i as usize),
             val => Err(cell_type_error(INT_TYPE_NAME, val.clone())),
         }
